@@ -117,3 +117,60 @@ pub fn reduce_mod_any<const BITS: usize, const LIMBS: usize>(_a: Uint<BITS, LIMB
 pub fn reduce_mod_any<const BITS: usize, const LIMBS: usize>(a: Uint<BITS, LIMBS>, m: Uint<BITS, LIMBS>) -> Uint<BITS, LIMBS> {
     a.reduce_mod(m)
 }
+
+// ---- reciprocal by specification (C14, compositional): `reciprocal(d)` is
+// decided on its own (all table rows); inside the division kernels, which
+// re-derive it in a debug assertion on every call, it is replaced by "the
+// unique v with (2^64 + v) * d <= 2^128 - 1 < (2^64 + v + 1) * d".
+#[cfg(kani)]
+pub fn reciprocal_spec(d: u64) -> u64 {
+    let v: u64 = kani::any();
+    // (2^64 + v) * d = d * 2^64 + v * d  as a 3-limb value [lo, mid, hi]
+    let vd = (v as u128) * (d as u128);
+    let lo = vd as u64;
+    let (mid, c) = ((vd >> 64) as u64).overflowing_add(d);
+    let hi = c as u64;
+    // <= 2^128 - 1  <=>  hi == 0
+    kani::assume(hi == 0);
+    // + d > 2^128 - 1  <=>  carry out of 128 bits
+    let (_l2, c1) = lo.overflowing_add(d);
+    let (_m2, c2) = mid.overflowing_add(c1 as u64);
+    kani::assume(c2);
+    v
+}
+
+#[cfg(not(kani))]
+pub fn reciprocal_spec(d: u64) -> u64 {
+    ruint::algorithms::div::reciprocal(d)
+}
+
+/// reciprocal_2 by specification: the unique v with (2^64 + v) * d <= 2^192 - 1 < (2^64 + v + 1) * d
+#[cfg(kani)]
+pub fn reciprocal_2_spec(d: u128) -> u64 {
+    let v: u64 = kani::any();
+    let (d0, d1) = (d as u64, (d >> 64) as u64);
+    // v * d as three limbs
+    let p0 = (v as u128) * (d0 as u128);
+    let p1 = (v as u128) * (d1 as u128);
+    let l0 = p0 as u64;
+    let t = (p0 >> 64) + (p1 & 0xffff_ffff_ffff_ffff);
+    let l1 = t as u64;
+    let l2 = (p1 >> 64) + (t >> 64); // < 2^64
+    // + d * 2^64: add d0 to l1, d1 to l2
+    let (m1, c1) = l1.overflowing_add(d0);
+    let s2 = l2 + d1 as u128 + c1 as u128;
+    // value = [l0, m1, s2(low 64)], overflow beyond 192 bits = s2 >> 64
+    kani::assume(s2 >> 64 == 0);
+    // adding d once more must carry out of 192 bits
+    let (_a0, k0) = l0.overflowing_add(d0);
+    let (a1, k1a) = m1.overflowing_add(d1);
+    let (_a1, k1b) = a1.overflowing_add(k0 as u64);
+    let top = (s2 as u64) as u128 + (k1a as u128) + (k1b as u128);
+    kani::assume(top >> 64 != 0);
+    v
+}
+
+#[cfg(not(kani))]
+pub fn reciprocal_2_spec(d: u128) -> u64 {
+    ruint::algorithms::div::reciprocal_2(d)
+}
